@@ -141,6 +141,18 @@ MixedArith == {C("mixarith/" \o nm[1], <<Def1("z", N(0)), Def1("one", N(1)), Pri
                           <<"f<f", CmpE("<", PI(1, N(5)), PI(1, N(5)))>>, <<"1<f", CmpE("<", N(1), PI(1, N(5)))>>, <<"s+empty", Bin("+", PS(1, StrL("a")), StrL(""))>>, <<"empty+s", Bin("+", StrL(""), PS(1, StrL("a")))>>,
                           <<"s==s", CmpE("==", PS(1, StrL("a")), PS(1, StrL("a")))>>, <<"notnot", Not(Not(PB(1, T)))>>, <<"b==true", CmpE("==", PB(1, T), T)>>, <<"true!=b", CmpE("!=", T, PB(1, F))>>,
                           <<"grp", Grp(Grp(PI(1, N(5))))>>, <<"itoa", Itoa(Bin("*", N(0), PI(1, N(5))))>>, <<"len", LenE(Bin("+", PS(1, StrL("ab")), StrL("")))>>}}
-All == WorldOrder \cup MixedLogic \cup MixedArith \cup Exprs \cup Calls \cup Stores \cup World \cup Chains \cup Switches \cup Loops
+\* the increment runs once before every re-test of the condition, also when the iteration ended with continue from any kind of branch body
+LJSites == {"then", "elif", "else", "case", "default", "elseNested", "none"}
+LJAt(site) == LET is1 == CmpE("==", Var("i"), N(1)) IN
+  CASE site = "then" -> <<If1(is1, <<ContinueS>>)>>
+    [] site = "elif" -> <<If(<<Branch(CmpE("==", Var("i"), N(9)), <<L("never")>>), Branch(is1, <<ContinueS>>)>>, <<>>)>>
+    [] site = "else" -> <<IfElse(CmpE("!=", Var("i"), N(1)), <<L("keep")>>, <<ContinueS>>)>>
+    [] site = "case" -> <<Switch(Var("i"), <<CaseB(N(1), <<ContinueS>>)>>, <<L("other")>>, TRUE)>>
+    [] site = "default" -> <<Switch(Var("i"), <<CaseB(N(0), <<L("zero")>>), CaseB(N(2), <<L("two")>>)>>, <<ContinueS>>, TRUE)>>
+    [] site = "elseNested" -> <<IfElse(CmpE("<", Var("i"), N(1)), <<L("low")>>, <<IfElse(CmpE(">", Var("i"), N(1)), <<L("high")>>, <<ContinueS>>)>>)>>
+    [] site = "none" -> <<>>
+LoopJumps == {C("loopjump/" \o st, <<For3(Def1("i", N(0)), PB(1, CmpE("<", Var("i"), N(3))), Asg1("i", PI(2, Bin("+", Var("i"), N(1)))), LJAt(st) \o <<PrintS(<<StrL("body"), Var("i")>>)>>)>>) : st \in LJSites}
+             \cup {C("rangejump/" \o st, <<RangeS("i", "v", SliceLit("int", <<PI(1, N(10)), PI(2, N(20)), PI(3, N(30))>>), LJAt(st) \o <<PrintS(<<StrL("body"), Var("i"), Var("v")>>)>>)>>) : st \in LJSites}
+All == LoopJumps \cup WorldOrder \cup MixedLogic \cup MixedArith \cup Exprs \cup Calls \cup Stores \cup World \cup Chains \cup Switches \cup Loops
 ASSUME ndJsonSerialize("fam.ndjson", SetToSeq(All))
 =============================================================================
